@@ -41,20 +41,20 @@ SQL_ASSUME = [
     "numbers compared numerically (scaled by 10^6), strings bytewise (C collation) - our reading of the PostgreSQL manual; no server in the sandbox",
 ]
 
-ATOM_KINDS = ["feq", "feqint", "fgt", "fle", "frange", "flist"]
+ATOM_KINDS = ["feq", "feqint", "fgt", "fle", "frange", "fxirange", "flist"]
 
 
 def sql_structure(run, prop):
     """Structure level: generated Boolean trees over known-good leaves, both renderings read by PostgreSQL's parser."""
     if run.tier == "quick":
-        cases, g = stage_gen_trees(run, ["feq", "frange"], 2, ws=0, suffix=False)
+        cases, g = stage_gen_trees(run, ["feq", "frange", "fxirange"], 2, ws=0, suffix=False)
         res, _, _ = stage_groups(run, cases, sql=True)
         stage_judge_trees(run, res, prop, cases)
         cases, g = stage_gen_trees(run, ATOM_KINDS, 3, ws=0, sample=1500, suffix=False, name="gen_deep")
         res, _, _ = stage_groups(run, cases, sql=True, name="parse_deep")
         stage_judge_trees(run, res, prop, cases, name="judge_deep")
     else:
-        cases, g = stage_gen_trees(run, ["feq", "feqint", "frange", "flist"], 2, ws=0, suffix=False)
+        cases, g = stage_gen_trees(run, ["feq", "feqint", "frange", "fxirange", "flist"], 2, ws=0, suffix=False)
         res, _, _ = stage_groups(run, cases, sql=True)
         stage_judge_trees(run, res, prop, cases)
         for depth, n in [(3, 20000), (5, 6000)]:
